@@ -21,6 +21,8 @@ pub fn bytes(b: &[u8]) -> Value {
 #[derive(Clone, Copy, Default)]
 pub struct Post {
     pub export: bool,
+    /// export at packet level only (no per-set / per-value exports): for very large results
+    pub export1: bool,
     pub common: bool,
 }
 
@@ -447,6 +449,9 @@ pub fn item(p: &NetflowPacket, post: Post) -> Value {
     if post.export {
         m.insert("exp".into(), export_of(p));
         m.insert("sexp".into(), set_exports(p));
+    } else if post.export1 {
+        m.insert("exp".into(), export_of(p));
+        m.insert("sexp".into(), json!([]));
     } else {
         m.insert("exp".into(), json!({"st": "off", "bytes": []}));
         m.insert("sexp".into(), json!([]));
